@@ -176,13 +176,14 @@ Print Assumptions C13_agree_is_equality.
     [local_env root sb r] is the FileSystem double that answers Stat / Open / ReadDir / Create /
     RemoveAll / Mkdir / Copy / Move as DavServer's own [stat] and [do_*] functions say
     LocalFileSystem does on [sb]; [req_match r r'] says [r'] carries the method, path, Depth /
-    Overwrite / Destination texts and Content-Type presence of [r] and that
-    DecodePropFindRequest reads its body as [D.pf r] says.  Then this file's model answers the
-    status DavServer answers, never panics, records at most one mutating call (on the request
-    path), and records none only if DavServer leaves the sandbox as it was.  PROPPATCH is
-    still excluded here (DavServer.v had no case for it when this was proved; see the next theorem). *)
+    Overwrite / Destination texts and Content-Type presence of [r] and that the handler reads
+    its body as [D.pf r] says ([pf_reads]: on PROPPATCH, [D.pf r = PfBad] iff DecodeXMLRequest
+    of the propertyupdate body fails; otherwise [D.pf r] is the outcome of
+    DecodePropFindRequest).  Then, for every method, this file's model answers the status
+    DavServer answers, never panics, records at most one mutating call (on the request path),
+    and records none only if DavServer leaves the sandbox as it was. *)
 Theorem C13_agrees_with_file_server_model : forall root sb r r',
-  req_match r r' -> D.meth r <> "PROPPATCH" ->
+  req_match r r' ->
   exists cs,
     serve (CDav (local_env root sb r) r') = Resp (st (D.serve root sb r)) cs /\
     (cs = [] \/ exists k dst, cs = [Call k (D.rpath r) dst]) /\
@@ -190,14 +191,20 @@ Theorem C13_agrees_with_file_server_model : forall root sb r r',
 Proof. exact agrees_with_file_server_model. Qed.
 Print Assumptions C13_agrees_with_file_server_model.
 
+Theorem C13_file_server_double_never_panics : forall root sb r r',
+  req_match r r' -> serve (CDav (local_env root sb r) r') <> Panicked.
+Proof. exact local_env_never_panics. Qed.
+Print Assumptions C13_file_server_double_never_panics.
+
 (** every DavServer request has a translation ([req_of]) *)
 Theorem C13_request_translation_exists : forall r, req_match r (req_of r).
 Proof. exact req_of_match. Qed.
 Print Assumptions C13_request_translation_exists.
 
-(** On PROPPATCH the two models used to differ (DavServer.serve answered 405, having no case
-    for the method; this model and the real handler 403 for a decodable body, 400 otherwise;
-    notes/C13.md).  DavServer.v has been corrected; the former witness now agrees. *)
+(** An instance.  On PROPPATCH the two models used to differ (DavServer.serve answered 405,
+    having no case for the method; this model and the real handler 403 for a decodable body,
+    400 otherwise; notes/C13.md).  DavServer.v has been corrected and the theorem above now
+    covers PROPPATCH; the former witness is kept as an example of the agreement. *)
 Theorem C13_file_server_model_proppatch_example :
   st (D.serve [] None proppatch_req) = 403 /\
   serve (CDav (local_env [] None proppatch_req) proppatch_req') = Resp 403 [].
